@@ -50,6 +50,8 @@ m("c02_sc_return_before_patch", "C02", r"C02\.SC:patch-own-jump", "an and/or nod
                             return;
                         }
                         let end = self.chunk.len();""")
+m("c12_pos_col_bytes", "C12", r"C12\.POS:lexer:counters-lockstep", "the tokenizer advances the column by the char's byte length",
+  "tera/src/parsing/lexer.rs", "                    _ => current_col += 1,", "                    _ => current_col += c.len_utf8(),")
 # ---------------------------------------------------------------- C05
 m("c05_iso_global", "C05", r"C05\.ISO:writer:global_context", "render_component gives the component the global context",
   "tera/src/vm/interpreter.rs", """        let mut state = State::new_with_chunk(&context, chunk);
